@@ -105,6 +105,25 @@ let handle (f : string list) : string =
     (match build_and_run (parse_vals vals) (parse_fileset fset) cv (nat_of_int 40) (n_of_int (int_of_string main)) w with
      | None -> "nolower"
      | Some (ws, r) -> "calls=" ^ string_of_int (int_of_n ws.w_calls) ^ " out=" ^ chunks_s ws.w_out ^ " res=" ^ run_result_s r)
+  | ["conv"; op; cn; kind; msg; ] ->
+    let opz = match op with
+      | "OpAdd" -> gen_OpAdd | "OpAddr" -> gen_OpAddr | "OpIndex" -> gen_OpIndex | "OpIndexRef" -> gen_OpIndexRef
+      | "OpSetSlice" -> gen_OpSetSlice | "OpAppendSlice" -> gen_OpAppendSlice | "OpCallIndirect" -> gen_OpCallIndirect
+      | "OpCallNative" -> gen_OpCallNative | "OpClose" -> gen_OpClose | "OpConvert" -> gen_OpConvert | "OpDelete" -> gen_OpDelete
+      | "OpMapIndex" -> gen_OpMapIndex | "OpMapIndexAny" -> gen_OpMapIndexAny | "OpDivInt" -> gen_OpDivInt | "OpDiv" -> gen_OpDiv
+      | "OpRemInt" -> gen_OpRemInt | "OpRem" -> gen_OpRem | "OpGo" -> gen_OpGo | "OpIf" -> gen_OpIf | "OpIndexString" -> gen_OpIndexString
+      | "OpMakeChan" -> gen_OpMakeChan | "OpMakeSlice" -> gen_OpMakeSlice | "OpPanic" -> gen_OpPanic | "OpSend" -> gen_OpSend
+      | "OpSetMap" -> gen_OpSetMap | "OpSlice" -> gen_OpSlice | "OpStringSlice" -> gen_OpStringSlice | "OpReturn" -> gen_OpReturn
+      | "OpCallMacro" -> gen_OpCallMacro | "OpShow" -> gen_OpShow | "OpText" -> gen_OpText
+      | _ -> failwith ("op " ^ op) in
+    let k = match kind with
+      | "stop" -> KStop | "out" -> KOut | "fatal" -> KFatal | "scriggo" -> KScriggoRuntime | "go" -> KGoRuntime
+      | "string" -> KString | "error" -> KError | "other" -> KOther | _ -> failwith ("kind " ^ kind) in
+    let p = { p_kind = k; p_msg = bytes_of_hex msg; p_id = n_of_int 7 } in
+    (match vm_run false false [SgRaise (false, opz, b01 cn, p, O)] with
+     | RRNil -> "nil" | RRPanicError -> "panic" | RROutError _ -> "out" | RRCtx -> "ctx" | RRStop _ -> "stop"
+     | RRError _ -> "error" | RRHostPanicFatal false -> "fatal:passed" | RRHostPanicFatal true -> "fatal:wrapped"
+     | RRHostPanicGo -> "gopanic" | RRStuck -> "stuck")
   | ["pathEscape"; q; h] -> script_s (pathEscape (b01 q) (bytes_of_hex h))
   | ["queryEscape"; h] -> script_s (queryEscape (bytes_of_hex h))
   | ["pe_q"; h] -> "ok:" ^ hex_of_bytes (path_escape_quoted_bytes (bytes_of_hex h))
